@@ -88,8 +88,34 @@ func (c *ClusterInfo) snapshotQueueResourceUsage() (*queue_info.ClusterUsage, er
 // UpdateQueueHierarchy iterates over a map containing multiple levels of queue hierarchies, and updates queues with
 // child queues where relevant
 func UpdateQueueHierarchy(queues map[common_info.QueueID]*queue_info.QueueInfo) {
+	cleanQueueCycles(queues)
 	updateQueueChildren(queues)
 	cleanQueueOrphans(queues)
+}
+
+// cleanQueueCycles deletes queues whose parent chain leads back to themselves (a self-parent or a longer cycle).
+// Nothing validates the queue graph on admission, and every walk up the hierarchy assumes it ends at a top queue.
+// Queues below a deleted cycle are left without a parent and are removed as orphans.
+func cleanQueueCycles(queues map[common_info.QueueID]*queue_info.QueueInfo) {
+	var inCycle []common_info.QueueID
+	for queueId, queue := range queues {
+		steps := 0
+		for current := queue.ParentQueue; current != "" && steps <= len(queues); steps++ {
+			if current == queueId {
+				inCycle = append(inCycle, queueId)
+				break
+			}
+			parent, found := queues[current]
+			if !found {
+				break
+			}
+			current = parent.ParentQueue
+		}
+	}
+	for _, queueId := range inCycle {
+		log.InfraLogger.V(2).Warnf("Found queue %s whose parent chain is a cycle, deleting it and all children", queueId)
+		delete(queues, queueId)
+	}
 }
 
 func updateQueueChildren(queues map[common_info.QueueID]*queue_info.QueueInfo) {
